@@ -27,6 +27,7 @@ import (
 	cmd_obimultiplex "git.metabarcoding.org/obitools/obitools4/obitools4/pkg/zverif/cmd/obimultiplex"
 	cmd_obipairing "git.metabarcoding.org/obitools/obitools4/obitools4/pkg/zverif/cmd/obipairing"
 	cmd_obipcr "git.metabarcoding.org/obitools/obitools4/obitools4/pkg/zverif/cmd/obipcr"
+	cmd_obiscript "git.metabarcoding.org/obitools/obitools4/obitools4/pkg/zverif/cmd/obiscript"
 	cmd_obisummary "git.metabarcoding.org/obitools/obitools4/obitools4/pkg/zverif/cmd/obisummary"
 	cmd_obiuniq "git.metabarcoding.org/obitools/obitools4/obitools4/pkg/zverif/cmd/obiuniq"
 )
@@ -45,6 +46,7 @@ var mains = map[string]func(){
 	"obimultiplex":  cmd_obimultiplex.Main,
 	"obipairing":    cmd_obipairing.Main,
 	"obipcr":        cmd_obipcr.Main,
+	"obiscript":     cmd_obiscript.Main,
 	"obisummary":    cmd_obisummary.Main,
 	"obiuniq":       cmd_obiuniq.Main,
 }
